@@ -80,6 +80,13 @@ static void run(const Spec & sp, uint64_t seed, long n_iid, int n_grid, bool hos
   uint64_t stream = (hash_str(lab) & 0xffffff) << 24;
   double tsum_min = 1e9, tsum_max = -1e9;
 
+  auto rec_simple = [&](std::map<std::string, Mismatch> & m, const std::string & key, const std::string & detail) {
+    Mismatch & x = m[key];
+    if (x.count++ == 0) {
+      x.key = key;
+      x.detail = detail;
+    }
+  };
   uint64_t last_sig = 0;
   auto one = [&](const std::string & steer) -> size_t {
     last_sig = 0;
@@ -202,6 +209,12 @@ static void run(const Spec & sp, uint64_t seed, long n_iid, int n_grid, bool hos
       d = one(steer);
       return last_sig;
     });
+  }
+  // the reported full-range/window ratio is a property of the configuration: it must read the same after the run as after initialize()
+  {
+    double toall_after = gen.get_to_all_events();
+    if (!(toall_after == toall) && !(std::isnan(toall_after) && std::isnan(toall)))
+      rec_simple(budget, lab + "|toallevents-changes", fmt("get_to_all_events() was %.12g after initialize() and is %.12g after %ld shots", toall, toall_after, st.events));
   }
   std::sort(st.draws_hist.begin(), st.draws_hist.end());
   size_t p999 = st.draws_hist.empty() ? 0 : st.draws_hist[(size_t)(0.999 * (st.draws_hist.size() - 1))];
